@@ -2,7 +2,7 @@ HOOKS = {
     "guard": "vm_memory_verif",
     "enable": "RUSTFLAGS=\"--cfg vm_memory_verif\" (set for the harness by /verif/harness/.cargo/config.toml)",
     "baseline_off_cmd": "cd /repo && cargo test --workspace --no-fail-fast --offline",
-    "source_commits": [],
+    "source_commits": ["be3842d verif hook H1: copy trace", "9dbbbb5 verif hook H2: AtomicU64 stand-in"],
     "add_only": True,
 }
 NOT_YET = {}
@@ -108,5 +108,27 @@ META.update({
                 "Tied by slice- and guest-memory-level runs over mapped, hole, 0 and u64::MAX addresses, empty containers and the three zero-sized element types, in checked and unchecked builds.",
         "design_ref": "DESIGN.md 6/C18", "note": PROOF_NOTE + "Three defects found here were repaired by fix: commits (see known_findings.json).",
         "technique": "Lean 4 no-op theorems + differential run with a zero-length oracle at all three layers",
+    },
+    "C03": {
+        "text": "Guest-level write/read/write_slice/read_slice/write_obj/read_obj/store/load are proved, by induction over the try_access loop for every well-formed layout, to behave as one flat sparse byte array: "
+                "count = longest mapped run capped at the buffer, each byte lands in the owning region/offset across region boundaries, InvalidGuestAddress iff the first byte is unmapped, PartialBuffer{expected,completed} otherwise, "
+                "frame, round trip through every route incl. region-level and host pointer, histories refine the flat spec, the wrap-to-0 branch is dead (56 theorems). Tied by mixed histories over touching regions, 1-byte holes, "
+                "regions ending at u64::MAX-1, anonymous and file-backed, on two GuestMemory implementations, with maps derived by insert/remove sharing regions; flat-array oracle re-reading every region after every op.",
+        "design_ref": "DESIGN.md 6/C03", "note": PROOF_NOTE + "Xen-UNIX backed regions are not exercised (standard build only). File mapping coherence is the kernel's.",
+        "technique": "Lean 4 loop-invariant proof (try_access refines a flat sparse array) + differential histories with a flat-array oracle",
+    },
+    "C06": {
+        "text": "PARTIAL (hardware atomicity is trusted). Proved for all addresses and lengths: alignment() is the largest power of two dividing the address, the copy plan tiles [0,total) contiguously, every primitive access is naturally aligned on both sides, "
+                "an aligned 1/2/4/8-byte transfer is exactly ONE access of that width, > 8 bytes is one bulk copy (17 theorems). Tied through hook H1: the logged accesses of every funnelling entry point (19 buffer forms + 6 object forms at slice, region and guest-memory level, stream adapters) "
+                "for total 1..17 x src mod 8 x dst mod 8 exhaustively must equal the model's plan; oracle: aligned 1/2/4/8 => one access.",
+        "design_ref": "DESIGN.md 6/C06", "note": PROOF_NOTE + "What the CPU/compiler do with one volatile access is trusted; orderings of atomic load/store are std's.",
+        "technique": "Lean 4 proof about the access plan + exhaustive trace comparison through a cfg-gated hook",
+    },
+    "C08": {
+        "text": "PARTIAL (SeqCst interleaving semantics trusted). Over ALL lists of atomic steps (hence all interleavings of any number of threads running mark-range, set-bit, reset-range, get_and_reset, clone): once a bit is set it is either still set at the end "
+                "or the first step clearing it returned it (no_lost_mark), no phantom pages, same-word marks commute, all these programs are store-free while reset() is all stores (19 theorems + a 4-step counter-example showing load;store would lose marks). "
+                "Tied through hook H2: the logged step sequence of every public op equals the model's program; plus exhaustive enumeration of the interleavings of 6 (thorough: 9) 2-3 thread scenarios on the real code via a token scheduler.",
+        "design_ref": "DESIGN.md 6/C08", "note": PROOF_NOTE + "Memory-model effects weaker than sequential consistency are outside the model.",
+        "technique": "Lean 4 theorem over all atomic-step lists + step-program comparison and exhaustive schedule enumeration through a cfg-gated shim",
     },
 })
